@@ -1,5 +1,6 @@
 pub mod c02;
 pub mod c04;
+pub mod c07;
 
 use crate::evidence::Ev;
 use crate::ledger::{self, GTx, GenCfg, Kind, Ledger};
